@@ -15,7 +15,7 @@ import (
 
 func init() {
 	Registry["C05"] = Set{
-		Explanation: "Decides the structural clauses of 'terminates once, with the right reason, finally': T1 every teardown site (unregisterProcess, ProcessTerminate, meta Terminate) is reached only by the single finaliser elected by swap->Terminated with the old value tested, and an outsider finalises only when no runner can exist (typestate + enum value sets, shared with C01.P5); T2 at each teardown site the reason handed to the registry/links and to the terminate callback have the same origin and that origin is the cause (ProcessRun's result, TerminateReasonPanic in recover handlers, TerminateReasonKill on the kill paths); T3 Terminated is absorbing: no CAS expects Terminated/Zombee, a swap that may overwrite Terminated restores it; T4 every MessageExit* arm of the behaviours that return the reason directly (Actor, Pool, WebWorker) returns an error wrapping that message's Reason (ErrNoConnection for node exits) or, when trapping, re-dispatches as a regular message — for MessageExitPID only if the sender is not the parent; T5 every ProcessInit/ProcessRun implementation and the runner install a deferred recover that yields TerminateReasonPanic. Added while probing: T2 for the meta handler the reason's origin set must be exactly {HandleMessage result, HandleCall result, the exit message's reason} (plus the recover constant); T6 after a handler callback no further handler callback is reachable without consulting the state word (a terminated process handles nothing more); T7 unregisterProcess/unregisterSpawnName hand their reason parameter to every fan-out they start. T1h when the runner's release CAS fails (the word was taken over by Kill or by the meta start goroutine, which by T1 did not tear down a live runner) every path to the end of the runner passes a teardown or the lost-election edge of a swap: a handed-over termination is finished. T2 follows the reason through the reason-forwarding methods of the meta process (finalize, terminated) and the hand-over field: the mailbox goroutine's own teardown names {HandleMessage, HandleCall results, exit message reason}, the handed-over one {Start result, normal when nil, panic}, recover handlers panic. T8 every delivered MessageExitPID{PID: x} is sent in the name of x (ordinary termination, failed start, node down): the only sender an actor never traps is its parent, and the core is the parent of everything the node starts itself.",
+		Explanation: "Decides the structural clauses of 'terminates once, with the right reason, finally': T1 every teardown site (unregisterProcess, ProcessTerminate, meta Terminate) is reached only by the single finaliser elected by swap->Terminated with the old value tested, and an outsider finalises only when no runner can exist (typestate + enum value sets, shared with C01.P5); T2 at each teardown site the reason handed to the registry/links and to the terminate callback have the same origin and that origin is the cause (ProcessRun's result, TerminateReasonPanic in recover handlers, TerminateReasonKill on the kill paths); T3 Terminated is absorbing: no CAS expects Terminated/Zombee, a swap that may overwrite Terminated restores it; T4 every MessageExit* arm of the behaviours that return the reason directly (Actor, Pool, WebWorker) returns an error wrapping that message's Reason (ErrNoConnection for node exits) or, when trapping, re-dispatches as a regular message — for MessageExitPID if and only if the sender is not the parent (no further test on the not-parent edge); T5 every ProcessInit/ProcessRun implementation and the runner install a deferred recover that yields TerminateReasonPanic. Added while probing: T2 for the meta handler the reason's origin set must be exactly {HandleMessage result, HandleCall result, the exit message's reason} (plus the recover constant); T6 after a handler callback no further handler callback is reachable without consulting the state word (a terminated process handles nothing more); T7 unregisterProcess/unregisterSpawnName hand their reason parameter to every fan-out they start. T1h when the runner's release CAS fails (the word was taken over by Kill or by the meta start goroutine, which by T1 did not tear down a live runner) every path to the end of the runner passes a teardown or the lost-election edge of a swap: a handed-over termination is finished. T2 follows the reason through the reason-forwarding methods of the meta process (finalize, terminated) and the hand-over field: the mailbox goroutine's own teardown names {HandleMessage, HandleCall results, exit message reason}, the handed-over one {Start result, normal when nil, panic}, recover handlers panic. T8 every delivered MessageExitPID{PID: x} is sent in the name of x (ordinary termination, failed start, node down): the only sender an actor never traps is its parent, and the core is the parent of everything the node starts itself. T9 in every supervisor strategy the reason put into the action while the shutdown flag is set is read from the shutdownReason field (the cause recorded when the shutdown began), not from the child that happened to terminate last.",
 		NotDecided: []string{
 			"that nothing of the process runs afterwards in goroutines the user started",
 			"the supervisor's own exit handling (its state machines; see C08)",
@@ -50,6 +50,7 @@ func runC05(p *load.Program, r *core.Report) {
 	c05Panic(a, r)
 	c05Recheck(a, r)
 	c05ExitSender(a, r)
+	c05ShutdownReason(a.P, r)
 }
 
 // c05Recheck: T6 — between two handler callbacks of one runner the state word is consulted, so a
@@ -737,6 +738,11 @@ func c05ExitArms(a *Anchors, r *core.Report) {
 						probs = append(probs, "a trapped exit from the PARENT is re-dispatched as a regular message: the child would survive its parent's exit")
 					}
 				}
+				if tn == "MessageExitPID" {
+					if ok, why := notParentAlwaysTrapped(f, isRetryStore); !ok {
+						probs = append(probs, why)
+					}
+				}
 			}
 			if len(probs) > 0 {
 				r.Bad(rule, key, fn, pos, inst, strings.Join(probs, "; "))
@@ -937,6 +943,59 @@ func guardedByParentTest(at ssa.Instruction, starts []Point) bool {
 		return false
 	}
 	return reachAvoidEdges(starts, cut, nil, func(in ssa.Instruction) bool { return in == at }) == nil
+}
+
+// notParentAlwaysTrapped: the edge on which the sender is NOT the parent leads to the re-dispatch
+// without any further test: no terminating return is reachable from it before the retry store.
+// (The trap flag is tested before the sender; a third condition — "nor the leader" — would let an
+// exit signal of a non-parent terminate a process that traps exits.)
+func notParentAlwaysTrapped(f *ssa.Function, isRetryStore func(ssa.Instruction) bool) (bool, string) {
+	var starts []Point
+	eachInstr(f, func(in ssa.Instruction) {
+		iff, ok := in.(*ssa.If)
+		if !ok {
+			return
+		}
+		b, ok := iff.Cond.(*ssa.BinOp)
+		if !ok || (b.Op != token.NEQ && b.Op != token.EQL) {
+			return
+		}
+		isFrom := func(v ssa.Value) bool {
+			_, path, ok := fieldPath(v)
+			return ok && len(path) > 0 && path[len(path)-1] == "From"
+		}
+		isParent := func(v ssa.Value) bool {
+			c, ok := v.(*ssa.Call)
+			if !ok {
+				return false
+			}
+			cc := c.Common()
+			if cc.IsInvoke() {
+				return cc.Method.Name() == "Parent"
+			}
+			if sf := staticCallee(cc); sf != nil {
+				return sf.Name() == "Parent"
+			}
+			return false
+		}
+		if (isFrom(b.X) && isParent(b.Y)) || (isFrom(b.Y) && isParent(b.X)) {
+			idx := 0
+			if b.Op == token.EQL {
+				idx = 1
+			}
+			starts = append(starts, Point{iff.Block().Succs[idx], 0})
+		}
+	})
+	if len(starts) == 0 {
+		return true, ""
+	}
+	if h := reaches(starts, isRetryStore, func(in ssa.Instruction) bool {
+		_, isIf := in.(*ssa.If)
+		return isIf || isReturn(in)
+	}); h != nil {
+		return false, "on the edge where the sender is not the parent another test (or a terminating return) comes before the re-dispatch: a process that traps exits is terminated by the exit signal of a process that is not its parent"
+	}
+	return true, ""
 }
 
 // c05Panic: T5
